@@ -103,6 +103,7 @@ func verifC02(maxChunks int, sizes []int) {
 	verifAssert("C15.relay.proxy-target", m.closedData[1] == int64(len(want)))
 	verifAssert("C15.relay.target-proxy", m.closedData[2] == int64(len(back)))
 	verifAssert("C15.relay.proxy-client", m.closedData[3] == int64(len(conn.written)))
+	verifAssert("C18.relay.no-goroutine-left", verifBlockedIn("proxyConnection") == 0)
 	verifReach("C02.multi-chunk", nc >= 1 && nt >= 2)
 }
 
@@ -160,9 +161,10 @@ func VH_C15_outcomes() {
 	verifAssert("C15.outcomes.target-proxy-bound", m.closedData[2] <= int64(target.bytesRead))
 	verifAssert("C15.outcomes.proxy-client-bound", m.closedData[3] <= int64(len(conn.written)))
 	verifAssert("C15.outcomes.conn-closed", conn.closed == 1)
+	verifQuiesce()
+	verifAssert("C18.outcomes.no-goroutine-left", verifBlockedIn("proxyConnection") == 0)
 	verifReach("C15.outcomes.relay-target-error", want == "ERR_RELAY_TARGET")
 }
-
 
 // a second connection is accepted, authenticated and served completely while the first one is
 // between its authentication and the reading of its target address: both streams stay intact
@@ -204,4 +206,40 @@ func (d *verifDialer2) DialStream(ctx contextContext, addr string) (transportStr
 		return t, nil
 	}
 	return nil, errVerifFault
+}
+
+// C11: a connection that is relaying when its listener generation is stopped (its context is
+// cancelled) keeps relaying to completion: no new deadline, data intact, status OK
+func VH_C11_relay_survives_reload() {
+	cl, specs, entries := verifMakeList(1, 1, false)
+	key := verifKey(specs[0].cipher, verifSecrets[specs[0].secret])
+	d1, d2 := verifBytes("d1", 2), verifBytes("d2", 3)
+	stream := verifClientStream(key, append([]byte{1, 93, 184, 216, 34, 0, 80}, d1...), d2)
+	verifAssume(!entries[0].SaltGenerator.IsServerSalt(stream[:key.SaltSize()]))
+	first := key.SaltSize() + 2 + 16 + 9 + 16
+	ctx, cancel := contextWithCancel()
+	conn := &verifStreamConn{name: "client", remote: &net.TCPAddr{IP: net.IPv4(203, 0, 113, 5), Port: 50000}}
+	conn.reads = []verifSRead{{data: stream[:first]}, {data: stream[first:]}}
+	target := &verifStreamConn{name: "target", remote: &net.TCPAddr{IP: net.IPv4(93, 184, 216, 34), Port: 80}}
+	reply := verifBytes("t", 2)
+	target.reads = []verifSRead{{data: reply}}
+	cancelled := false
+	conn.onRead = func(call int) {
+		// the reload happens while the relay waits for the client's second chunk
+		if target.writeCalls >= 1 && !cancelled {
+			cancelled = true
+			cancel()
+			verifQuiesce()
+		}
+	}
+	h := NewStreamHandler(NewShadowsocksStreamAuthenticator(cl, nil, nil, nil), tcpReadTimeout)
+	h.SetTargetDialer(&verifDialer{conn: target})
+	m := &verifTCPMetrics{}
+	h.Handle(ctx, conn, m)
+	verifQuiesce()
+	verifAssert("C11.relay.cancel-happened-mid-relay", cancelled)
+	verifAssert("C11.relay.status-ok", len(m.closed) == 1 && m.closed[0] == "OK")
+	verifAssert("C11.relay.client-data-intact", len(target.written) == 5 && verifBytesEq(target.written, append(append([]byte{}, d1...), d2...)))
+	verifAssert("C11.relay.no-deadline-after-header", len(conn.deadlines) == 2 && conn.deadlines[1].IsZero() && len(target.deadlines) == 0)
+	verifReach("C11.relay.done", true)
 }
